@@ -57,6 +57,7 @@ def cases(tier):
     yield dict(kind="lig-mismatch", tier=tier)
     yield dict(kind="split", tier=tier)
     yield dict(kind="split-run", tier=tier)
+    yield dict(kind="split-reuse", tier=tier)
     yield dict(kind="split-run", tier=tier, with_coords=True)
 
 
@@ -574,6 +575,34 @@ def check_split(case):
     return viols, evals, keys
 
 
+def check_split_reuse(case):
+    """-split pieces that take the name of a residue type the molecule already has (cap + monomer): the pieces hold exactly
+    the atoms written, every other residue keeps exactly its atoms"""
+    viols, evals, keys = [], 0, []
+    tests = [("CAP4", "H:S-x:OH-y,z", [("S", ["x"]), ("OH", ["y", "z"]), ("S", ["a"]), ("S", ["a"]), ("S", ["a"])]),
+             ("CAP4", "H:OH-x:S-y,z", [("OH", ["x"]), ("S", ["y", "z"]), ("S", ["a"]), ("S", ["a"]), ("S", ["a"])]),
+             ("MIX3", "D:S-p:T-q", [("S", ["a"]), ("S", ["p"]), ("T", ["q"]), ("T", ["x", "y", "z"])]),
+             ("MIX3", "T:D-x:S-y,z", [("S", ["a"]), ("D", ["p", "q"]), ("D", ["x"]), ("S", ["y", "z"])])]
+    with H.tempdir() as d:
+        for typ, sstr, want in tests:
+            for count in (1, 2):
+                top = read_top(d, dict(types=[typ], molecules=[(typ, count)], box=[4.0, 4.0, 4.0]))
+                evals += 1
+                case1 = dict(kind="splitreuse1", typ=typ, split=sstr, count=count)
+                for mm in top.molecules:
+                    try:
+                        mm.split_residue([sstr])
+                    except Exception as exc:  # noqa
+                        viols.append(crash_violation(exc, case1, assertion="split-spec-accepted"))
+                        break
+                    got = sorted((mm.nodes[n]["resname"], sorted(mm.molecule.nodes[a]["atomname"] for a in mm.nodes[n]["graph"].nodes)) for n in mm.nodes)
+                    if got != sorted((rn, sorted(ats)) for rn, ats in want) and len(viols) < 20:
+                        viols.append(dict(assertion="split-partitions-residue", tags=["piece-reuses-existing-residue-name"],
+                                          message=f"{typ} -split {sstr}: residues {got} expected {sorted(want)}", case=case1, detail={}))
+                keys.append(f"splitreuse:{typ}:{sstr}:{count}")
+    return viols, evals, keys
+
+
 def check_split_run(case):
     viols, evals, keys = [], 0, []
     singles = list(split_strings())
@@ -617,7 +646,7 @@ def check_split_run(case):
     return viols, evals, keys
 
 
-FUNCS = {"lig-mismatch": check_lig_mismatch, "lig-unnamed": check_lig_unnamed, "lig-two": check_lig_two, "tags-dup": check_tags_dup, "pairdir": check_pair_directives, "tags": check_tags, "tags-multi": check_tags_multi, "start": check_start, "lig": check_lig, "split": check_split,
+FUNCS = {"split-reuse": check_split_reuse, "lig-mismatch": check_lig_mismatch, "lig-unnamed": check_lig_unnamed, "lig-two": check_lig_two, "tags-dup": check_tags_dup, "pairdir": check_pair_directives, "tags": check_tags, "tags-multi": check_tags_multi, "start": check_start, "lig": check_lig, "split": check_split,
          "split-run": check_split_run}
 
 
@@ -625,7 +654,7 @@ def run_case(case):
     kind = case["kind"]
     if kind not in FUNCS:
         # replay of single sub-cases is done by re-running the owning family (cheap) and filtering
-        fam = {"tags1": "tags", "tagsm1": "tags-multi", "pairdir1": "pairdir", "tagsdup1": "tags-dup", "lig2": "lig-two", "ligu1": "lig-unnamed", "ligm1": "lig-mismatch", "start1": "start", "lig1": "lig", "split1": "split", "splitrun1": "split-run"}[kind]
+        fam = {"tags1": "tags", "tagsm1": "tags-multi", "pairdir1": "pairdir", "tagsdup1": "tags-dup", "lig2": "lig-two", "ligu1": "lig-unnamed", "ligm1": "lig-mismatch", "splitreuse1": "split-reuse", "start1": "start", "lig1": "lig", "split1": "split", "splitrun1": "split-run"}[kind]
         out = []
         for part in range(4 if fam == "lig" else 1):
             c = dict(kind=fam, tier="quick", part=part, directive="sphere" if case.get("key") != "rw_options" else "rw")
